@@ -182,6 +182,9 @@ def run_selftest(prop: str, repo: Repo) -> dict:
     seeds: list[Seed] = list(getattr(mod, "SEEDS", []))
     if not seeds:
         raise AnalysisError(f"no self-test seeds for {prop}")
+    # every file that is re-laid-out is also alpha-renamed: no rule may depend on how a local is spelled
+    have = {s.file for s in seeds if s.old == RENAME}
+    seeds += [rename_seed(s.file) for s in seeds if s.kind == "neutral" and s.old is None and s.file not in have]
     base = _identities(prop, repo)
     jobs = [(prop, str(repo.root), s, base) for s in seeds]
     workers = min(16, len(jobs), os.cpu_count() or 4)
